@@ -225,6 +225,11 @@ func init() {
 			for _, ru := range []string{"haa", "had", "hda", "hdd", "paa", "pad", "pda", "pdd"} {
 				out = append(out, sp("C06", "fixed-reuse/"+ru, seed, P("fixed", "1", "dir", "h", "ord", "a", "gap", "0", "reuse", ru)))
 			}
+			for _, tl := range []string{"none", "auto"} {
+				for _, st := range []string{"0", "3s", "20s"} {
+					out = append(out, sp("C06", fmt.Sprintf("long-lived/%s/%s", tl, st), seed, P("longlived", "1", "tls", tl, "starttimeout", st)))
+				}
+			}
 			for _, cm := range []string{"dial-first", "accept-first"} {
 				nv := 4
 				if tier == "thorough" {
@@ -289,6 +294,10 @@ func init() {
 			}
 			if r.Spec.P("component", "") != "" {
 				runC06Component(r)
+				return
+			}
+			if r.Spec.P("longlived", "") != "" {
+				runC06LongLived(r)
 				return
 			}
 			runBrokerPairs(r, h.Conf{Proto: "netrpc"}, "mux")
@@ -413,6 +422,67 @@ func runC06Component(r *h.Run) {
 	pairOK("fresh-after", 9, 0, 10*time.Millisecond)
 }
 
+// runC06LongLived: a net/rpc connection (with and without TLS) that outlives
+// the client's StartTimeout several times over, idle in between: brokered
+// connections made before keep answering, new ones and Dispenses still work.
+func runC06LongLived(r *h.Run) {
+	w := r.W
+	c := r.ConfFromParams()
+	c.Proto = "netrpc"
+	ctx := fmt.Sprintf("broker=mux long-lived conf=%s starttimeout=%v", c.String(), c.Timeout)
+	s := open(r, c)
+	if s == nil {
+		return
+	}
+	gc := s.cmd.(*plugins.RPCClient)
+	inj0 := w.InjectedTotal()
+	quiet := func() bool { return w.InjectedTotal()-inj0 < 2*time.Second && w.FaultCount("conn.rst") == 0 }
+	s.cmd.Do("accept", "9100")
+	conn, err := gc.Broker.Dial(9100)
+	if err != nil {
+		r.Violate("lost-pair", ctx+" step=first", err.Error())
+		s.kill()
+		return
+	}
+	defer conn.Close()
+	idle := c.Timeout
+	if idle == 0 {
+		idle = time.Minute
+	}
+	for round := 1; round <= 3; round++ {
+		time.Sleep(idle + idle/2)
+		step := fmt.Sprintf("round=%d", round)
+		if o := r.DoNoHang("EchoOld", 60*time.Second, ctx, func() (any, error) { return plugins.EchoOnce(conn, 9100, 48) }); o.Err != nil && quiet() {
+			r.Violate("main-conn-lost", ctx+" old-brokered-connection "+step, fmt.Sprintf("a brokered connection made at the start failed after %v: %v", w.Now(), o.Err))
+			break
+		}
+		id := uint32(9100 + round)
+		s.cmd.Do("accept", fmt.Sprint(id))
+		if o := r.DoNoHang(fmt.Sprintf("Dial(%d)", id), 60*time.Second, ctx, func() (any, error) { return h.HostDialPing(s.cmd, id) }); o.Err != nil && quiet() {
+			r.Violate("lost-pair", ctx+" "+step, fmt.Sprintf("accept+dial of id %d, %v after the connection was made: %v", id, w.Now(), o.Err))
+			break
+		} else if o.Err == nil && o.Val.(string) != fmt.Sprintf("id=%d", id) {
+			r.Violate("misroute", ctx+" "+step, fmt.Sprint(o.Val))
+		}
+		if o := r.DoNoHang("Dispense", 60*time.Second, ctx, func() (any, error) {
+			raw, err := s.cp.Dispense(h.PluginName)
+			if err != nil {
+				return nil, err
+			}
+			return raw.(plugins.Cmd).Do("tag", "")
+		}); o.Err != nil && quiet() {
+			r.Violate("dispense-failed", ctx+" "+step, fmt.Sprintf("Dispense %v after the connection was made: %v", w.Now(), o.Err))
+			break
+		}
+	}
+	w.Probe("mux.long-lived")
+	plug := w.ProcByName("plugin")
+	s.kill()
+	if plug != nil && plug.GotKill && quiet() {
+		r.Violate("main-conn-lost", ctx+" at-kill", "the plugin had to be force-killed: the graceful shutdown request did not get through")
+	}
+}
+
 // runBrokerBurst: k establishments issued at the same instant (the accepts
 // first, then all dials at once; or k Dispenses at once), each of which must
 // succeed and reach its own peer.
@@ -432,6 +502,12 @@ func runBrokerBurst(r *h.Run, c h.Conf, kind string) {
 	}
 	results := make([]res, kk)
 	var wg sync.WaitGroup
+	withOpts := false
+	if strings.HasSuffix(mode, "opts") {
+		// every dial uses ONE shared slice of custom dial options (gRPC)
+		withOpts = true
+		mode = strings.TrimSuffix(mode, "opts")
+	}
 	switch mode {
 	case "hdial", "pdial":
 		for i := 0; i < kk; i++ {
@@ -449,6 +525,12 @@ func runBrokerBurst(r *h.Run, c h.Conf, kind string) {
 			go k.Trap(func() {
 				defer wg.Done()
 				results[i] = res{id, r.Do(fmt.Sprintf("BurstDial(%d)", id), 90*time.Second, func() (any, error) {
+					if withOpts {
+						if mode == "hdial" {
+							return plugins.DialPingWithOpts(s.cmd.(*plugins.GRPCClient).Broker, id)
+						}
+						return s.cmd.Do("dialopts", fmt.Sprint(id))
+					}
 					if mode == "hdial" {
 						return h.HostDialPing(s.cmd, id)
 					}
@@ -992,9 +1074,12 @@ func init() {
 			for _, rt := range []string{"hd", "pd", "ha", "pa"} {
 				out = append(out, sp("C07", "fixed-retry/"+rt, seed, P("tls", "none", "launch", "cmd", "fixed", "1", "dir", "h", "ord", "a", "gap", "0", "retry", rt)))
 			}
-			for _, mode := range []string{"hdial", "pdial"} {
+			for _, mode := range []string{"hdial", "pdial", "hdialopts", "pdialopts"} {
 				for _, kk := range []string{"4", "12", "40"} {
 					nv := 2
+					if strings.HasSuffix(mode, "opts") {
+						nv = 6
+					}
 					if tier == "thorough" {
 						nv = 40
 					}
@@ -1002,7 +1087,7 @@ func init() {
 						s := sp("C07", fmt.Sprintf("burst/%s/%s/%d", mode, kk, v), seed+uint64(v)*7919, P("tls", []string{"none", "auto"}[v%2], "launch", "cmd", "burst", mode, "k", kk))
 						if v > 0 {
 							s.HotPermille, s.DelayClass = 60, []string{"tiny", "small"}[v%2]
-							s.Focus = "grpc_broker.go"
+							s.Focus = "grpc_broker.go,grpc_client.go:dialGRPCConn"
 							s.Wake = []int{0, 500, 1000}[v%3]
 						}
 						out = append(out, s)
